@@ -132,6 +132,35 @@ func c03Menu(f *concFix) []crashCmd {
 	}
 }
 
+// tornOffsetsOf: the byte offsets at which a write of data is cut. Quick: {1, 2, L/2, L-2, L-1} plus every line boundary
+// of a multi-line batch and the bytes next to it (a batch cut exactly between two of its events is the cut that leaves
+// whole events of a half-applied command behind); thorough: every offset.
+func tornOffsetsOf(data []byte, thorough bool) []int {
+	out := tornOffsets(len(data), thorough)
+	if thorough {
+		return out
+	}
+	set := map[int]bool{}
+	for _, t := range out {
+		set[t] = true
+	}
+	for i, b := range data {
+		if b == '\n' && i+1 < len(data) {
+			for _, t := range []int{i, i + 1, i + 2} {
+				if t >= 1 && t < len(data) {
+					set[t] = true
+				}
+			}
+		}
+	}
+	out = out[:0]
+	for t := range set {
+		out = append(out, t)
+	}
+	sort.Ints(out)
+	return out
+}
+
 func tornOffsets(L int, thorough bool) []int {
 	if L <= 1 {
 		return nil
@@ -173,6 +202,12 @@ func runC03(env *core.Env) {
 	// the write cut short by the kernel (disk full / file size limit) with the process still alive to react: whatever
 	// it does then (error out, roll back), everything acknowledged before must still be there (cheap, so it runs first)
 	shortCov := shortWritePhase(env, "C03", f.SA, []crashCmd{menu[0], menu[3], menu[4], menu[8]})
+	{
+		// an epic whose only child is finished: prune takes the child and the epic in one batch (reduced menu)
+		fx := FixFrom(env, env.W0(), f.SA, 200)
+		fx.Set(f.T3, map[string]interface{}{"state": "done"})
+		roots = append(roots, &c03State{Store: fx.Store(), Path: []string{"S_A-with-E1-finished"}, Cmds: []int{8, 10, 4}})
+	}
 	var mu sync.Mutex
 	seen := map[string]bool{}
 	key := func(st core.Store) string {
@@ -212,6 +247,13 @@ func runC03(env *core.Env) {
 		if obs.Fail != "" {
 			violation("reads-fail-after-crash", s, "after the crash a read fails: "+obs.Fail)
 			return
+		}
+		// the text views are built by other code than the JSON ones: they must cope with the same state
+		for _, tv := range [][]string{{"list", "--all"}, {"list"}, {"list", "--ready"}} {
+			if r := w.Run(core.R(w.Proj, tv...).In("")); r.Exit != 0 || r.Panic {
+				violation("text-view-fails-after-crash", s, fmt.Sprintf("after the crash `ergo %s` fails: %s", strings.Join(tv, " "), r.String()))
+				return
+			}
 		}
 		clean := cleanOf(s.Store)
 		clean.Materialize(w.Proj)
@@ -300,7 +342,7 @@ func runC03(env *core.Env) {
 					base := st.Log()
 					if len(full) >= len(base)+int(call.Ret) && bytes.HasPrefix(full, base) && call.Path == st.LogName() {
 						data := full[len(base) : len(base)+int(call.Ret)]
-						for _, t := range tornOffsets(len(data), env.Thorough()) {
+						for _, t := range tornOffsetsOf(data, env.Thorough()) {
 							ts := st.WithLog(append(append([]byte{}, base...), data[:t]...))
 							atomic.AddInt64(&tornStates, 1)
 							out = append(out, &c03State{Root: rootOf(s, s.Store), Store: ts, Depth: s.Depth + 1,
@@ -389,7 +431,7 @@ func runC03(env *core.Env) {
 		"crash_states": crashStates, "torn_states": tornStates, "distinct_states": len(seen), "states_checked": statesChecked,
 		"recovery_commands_run": followUps, "strace_runs": straceRuns, "kill_points_not_landed": notLanded, "outcome_classes": classes.snapshot(),
 		"unconfirmed_candidates": unconfirmed.Load(),
-		"explanation":            "explicit-state search over crash states: from 3 pre-states (+ the first one with CRLF line ends, reduced menu) every command of a 15-command menu is killed (production binary, SIGKILL via strace) on entry to every store-mutating system call, and every log write is additionally cut short at byte offsets {1,2,L/2,L-2,L-1} (thorough: every offset); each distinct state must be readable, show exactly its whole events, keep every earlier event in order, and every menu command must then behave exactly as on the clean store with the same whole events and leave the store readable; damaged states (torn tail / temp file) are crashed again (depth 2; thorough 3)",
+		"explanation":            "explicit-state search over crash states: from 3 pre-states (+ the first one with CRLF line ends, reduced menu) every command of a 15-command menu is killed (production binary, SIGKILL via strace) on entry to every store-mutating system call, and every log write is additionally cut short at byte offsets {1,2,L/2,L-2,L-1} and at every line boundary of a multi-event batch +-1 (thorough: every offset); each distinct state must be readable (JSON reads and the text views), show exactly its whole events, keep every earlier event in order, and every menu command must then behave exactly as on the clean store with the same whole events and leave the store readable; damaged states (torn tail / temp file) are crashed again (depth 2; thorough 3)",
 	}, []string{
 		"process death only: page cache survives SIGKILL, no power-loss / fsync reordering model",
 		"a torn write is a byte prefix of the data of one write(2)",
